@@ -265,10 +265,14 @@ func Drops(r *rand.Rand, n int, pattern int) *roaring.Bitmap {
 // JumboBatch draws n small documents over a tiny vocabulary so that some term
 // occurs in more than 1024 documents (adaptive chunking then uses >= 2 chunks
 // and doc values cross the 1024-document chunk).
-func JumboBatch(r *rand.Rand, n int, prefix string) ([]*model.MDoc, *Schema) {
+func JumboBatch(r *rand.Rand, n int, prefix string, tagDV ...bool) ([]*model.MDoc, *Schema) {
+	tdv := r.Intn(2) == 0
+	if len(tagDV) > 0 {
+		tdv = tagDV[0]
+	}
 	sch := &Schema{IDP: 10, Fields: []FieldSpec{
 		{Name: "body", DV: true, Locs: true, Vocab: []string{"common", "often", "rare0", "rare1", "rare2"}, StoreP: 3},
-		{Name: "tag", DV: r.Intn(2) == 0, Locs: false, Vocab: []string{"x", "y"}, Unique: true, StoreP: 0},
+		{Name: "tag", DV: tdv, Locs: false, Vocab: []string{"x", "y"}, Unique: true, StoreP: 0},
 	}}
 	docs := make([]*model.MDoc, n)
 	for i := range docs {
